@@ -78,6 +78,8 @@ class ParserSessionProp(object):
             return self.generate_stress(seed, index, tier, options)
         if self.is_scale_run(index, tier):
             return self.generate_scale(seed, index, tier, options)
+        if self.is_cheap_scale_run(index, tier):
+            return self.generate_cheap_scale(seed, index, tier, options)
         rng = gen.stream(seed, self.id + ':ops', index)
         knobs = self.bound_costs(self.knobs(rng, tier, options))
         fam = knobs['family']
@@ -146,6 +148,25 @@ class ParserSessionProp(object):
     # ------------------------------------------------------------ scale runs
     scale_every = {'quick': 0, 'thorough': 0}      # 0 = never; C02/C09/C11 switch them on
 
+    def is_cheap_scale_run(self, index, tier):
+        # the two scale kinds that cost seconds (very long sentences over the chain grammar, tag inventories beyond
+        # 2^16) run far more often than the expensive ones, in every check that has scale runs at all
+        if not self.scale_every.get(tier, 0):
+            return False
+        every = self.cheap_scale_every.get(tier, 0)
+        kinds = [k for k in ('very_long', 'wide') if k in self.scale_kinds]
+        return bool(every) and bool(kinds) and index % every == every // 2 + 1
+
+    cheap_scale_every = {'quick': 40, 'thorough': 30}
+
+    def generate_cheap_scale(self, seed, index, tier, options):
+        rng = gen.stream(seed, self.id + ':cheapscale', index)
+        nprng = gen.np_stream(rng)
+        kinds = [k for k in ('very_long', 'wide') if k in self.scale_kinds]
+        if rng.choice(kinds) == 'wide':
+            return self.generate_wide(seed, index, tier, rng, nprng)
+        return self.generate_very_long(seed, index, tier, rng, nprng)
+
     def is_scale_run(self, index, tier):
         every = self.scale_every.get(tier, 0)
         return bool(every) and index % every == every // 2
@@ -159,10 +180,13 @@ class ParserSessionProp(object):
         rng = gen.stream(seed, self.id + ':scale', index)
         nprng = gen.np_stream(rng)
         r = rng.random()
-        if r < 0.45:
+        kinds = self.scale_kinds
+        if r < 0.45 and 'dense_long' in kinds:
             return self.generate_dense_long(seed, index, tier, rng, nprng)
-        if r < 0.62:
+        if r < 0.62 and 'very_long' in kinds:
             return self.generate_very_long(seed, index, tier, rng, nprng)
+        if (r < 0.74 and 'wide' in kinds) or 'plain' not in kinds:
+            return self.generate_wide(seed, index, tier, rng, nprng)
         T = rng.choice([64, 130, 260, 425])
         cats = [f'T{k}' for k in range(T)]
         head = rng.random() < 0.5
@@ -191,6 +215,59 @@ class ParserSessionProp(object):
         return {'prop': self.id, 'seed': seed, 'index': index, 'world': wspec, 'ops': ops,
                 'knobs': {'family': 'scale', 'fault_class': 'none', 'nbest': 1}, 'executor': 'inprocess'}
 
+    scale_kinds = ('dense_long', 'very_long', 'wide', 'plain')
+    very_long_lengths = (255, 256, 257, 300, 511, 512, 513, 640)
+
+    def generate_wide(self, seed, index, tier, rng, nprng):
+        """the fourth scale dimension: a tag inventory of more than 2^16 categories (category ids beyond 16 bits).
+        Short sentences whose plausible tags are a handful of ids and their twins 65536 higher, over a random rule
+        table on exactly those categories, so that an id handled modulo 2^16 (packed keys, narrow fields) meets its
+        twin with different rules in the same sentence.  The score matrix is stored sparsely in the spec."""
+        T = 65536 + rng.choice([8, 300, 4500])
+        low = [0, 1, 2, 3, 4, 5]
+        special = low + [65536 + k for k in low]
+        cats = [f'T{k}' for k in range(T)]
+        head = rng.random() < 0.5
+        table = {}
+        results = [f'T{k}' for k in special] + ['R0', 'R1']
+        for a in special + ['R0', 'R1']:
+            for b in special + ['R0', 'R1']:
+                if rng.random() < 0.45:
+                    x = a if isinstance(a, str) else f'T{a}'
+                    y = b if isinstance(b, str) else f'T{b}'
+                    outs = rng.sample(results, rng.choice([1, 1, 2]))      # distinct result categories
+                    table[f'{x} || {y}'] = [[c, f'r{len(table)}_{j}', f'<r{len(table)}_{j}>', head]
+                                            for j, c in enumerate(outs)]
+        unary = {f'T{k}': [[rng.choice(results), 'u0', '<u0>']] for k in rng.sample(special, 3)}
+        sentences = []
+        for sid in range(rng.choice([3, 4])):
+            n = rng.choice([2, 3, 4, 5, 6])
+            entries = []
+            for i in range(n):
+                base = rng.sample(low, rng.choice([1, 2, 2]))
+                # a tag and its twin 65536 higher both plausible for the same word (or for neighbours)
+                picks = sorted(set(base + [65536 + t for t in base if rng.random() < 0.7]))
+                lp = nprng.normal(0.0, 1.0, size=len(picks))
+                lp = lp - numpy.log(numpy.exp(lp).sum())
+                entries.extend([[i, int(t), float(numpy.float32(v))] for t, v in zip(picks, lp)])
+            dl = nprng.normal(0.0, 1.0, size=(n, n + 1))
+            dep = (dl - numpy.log(numpy.exp(dl).sum(axis=1, keepdims=True))).astype(numpy.float32)
+            sentences.append({'words': [f's{sid}x{i}' for i in range(n)],
+                              'tag': {'shape': [n, T], 'fill': -40.0, 'entries': entries},
+                              'dep': gen.arr_to_hex(dep), 'style': 'continuous', 'rich': False, 'favoured': None})
+        wspec = {'family': 'scale',
+                 'grammar': {'kind': 'synth', 'heads': 'left' if head else 'right', 'binary': table, 'unary': unary,
+                             'categories': cats, 'roots': [f'T{k}' for k in rng.sample(special, 4)] + ['R0'], 'lang': 'en'},
+                 'sentences': sentences}
+        nbest = rng.choice(self.nbest_choices)
+        cfg = {'unary_penalty': 0.1, 'beta': 1e-5, 'use_beta': True, 'pruning_size': rng.choice([4, 8, 50]),
+               'nbest': nbest, 'max_step': 20000 if nbest == 1 else 4000, 'max_length': 250}
+        sids = list(range(len(sentences)))
+        ops = [dict(cfg, op='call', batch=sids, processes=2, max_chunk_size=20),
+               dict(cfg, op='call', batch=sids[::-1], processes=2, max_chunk_size=1)]
+        return {'prop': self.id, 'seed': seed, 'index': index, 'world': wspec, 'ops': ops,
+                'knobs': {'family': 'scale', 'fault_class': 'none', 'nbest': nbest}, 'executor': 'inprocess'}
+
     def generate_very_long(self, seed, index, tier, rng, nprng):
         """the third scale dimension: sentences of 255-640 words (the caller raised max_length, as --max-length
         does).  The grammar only lets a core word absorb its left and right neighbours one at a time and the model
@@ -203,7 +280,7 @@ class ParserSessionProp(object):
         table = {'T1 || T0': [['T0', 'r1', '<r1>', head]], 'T0 || T2': [['T0', 'r2', '<r2>', head]]}
         unary = {'T3': [['T0', 'u0', '<u0>']]}
         sentences = []
-        main = rng.choice([255, 256, 257, 300, 511, 512, 513, 640])
+        main = rng.choice(self.very_long_lengths)
         for sid, n in enumerate([rng.choice([9, 33]), main, 1, rng.choice([2, 5])]):
             logits = nprng.normal(0.0, 1.0, size=(n, T))
             core = rng.randrange(n)
@@ -219,7 +296,7 @@ class ParserSessionProp(object):
                              'categories': cats, 'roots': ['T0'], 'lang': 'en'},
                  'sentences': sentences}
         cfg = {'unary_penalty': 0.1, 'beta': 1e-5, 'use_beta': True, 'pruning_size': rng.choice([50, 3]),
-               'nbest': 1, 'max_step': 3000000, 'max_length': rng.choice([main, main + 1, 1000])}
+               'nbest': 1, 'max_step': 3000000, 'max_length': rng.choice([main, main + 1, 5000])}
         ops = [dict(cfg, op='call', batch=[0, 1, 2, 3], processes=2, max_chunk_size=20),
                dict(cfg, op='call', batch=[1, 3], processes=2, max_chunk_size=1)]
         return {'prop': self.id, 'seed': seed, 'index': index, 'world': wspec, 'ops': ops,
@@ -410,9 +487,20 @@ class ParserSessionProp(object):
         executor_mode = executor_mode or spec.get('executor', 'inprocess')
         world = session.World(spec['world'])
         self._last_world = world
+        if self.fresh_alone:
+            world.reference = session.AloneServer(world)      # forked before the first call of the session
         stats = new_stats()
         violations = []
         log = []
+        try:
+            return self._execute_ops(spec, world, executor_mode, stats, violations, log)
+        finally:
+            if getattr(world, 'reference', None) is not None:
+                world.reference.close()
+
+    fresh_alone = False
+
+    def _execute_ops(self, spec, world, executor_mode, stats, violations, log):
         for oi, op in enumerate(spec['ops']):
             rec = self.run_call(world, op, executor_mode)
             self.common_measures(world, op, rec, stats)
